@@ -5,5 +5,5 @@ From Coq Require Import NArith List PArith.
 From Blue Require Import Lsm.Model Lsm.History Conc.KvsConc Conc.Spec.
 Require Import ExtrOcamlBasic.
 Extraction Language OCaml.
-Extraction "../ocaml/conc/gen_conc.ml" init step step_unrepaired sinit sstep dbof db_value db_live
+Extraction "../ocaml/conc/gen_conc.ml" init step step_unrepaired reopen sinit sstep sreopen dbof db_value db_live
   k_vis k_seq k_memseq k_trig k_cur k_imm k_wlnext k_wllive N.of_nat N.to_nat.
